@@ -43,6 +43,12 @@ fn mk_utxo(n: u32, address: u8, lovelace: i128, t1: i128, t2: i128) -> Utxo {
     Utxo { r#ref: UtxoRef { txid, index: n % 3 }, address: addr(address), assets, datum: None, script: None }
 }
 
+/// adds a policy-less (`Named`) asset to a UTxO: not lovelace, so such a UTxO is no collateral
+fn with_named(mut u: Utxo, q: i128) -> Utxo {
+    u.assets = u.assets + CanonicalAssets::from_named_asset(b"NAMED", q);
+    u
+}
+
 #[derive(Clone, Debug)]
 struct Query {
     address: Option<u8>,
@@ -292,7 +298,7 @@ impl Property for C03 {
         "C03"
     }
     fn rule(&self) -> String {
-        "small (exhaustive over a seeded sample of stores): stores of 0..4 UTxOs over addresses {A,B,C} x lovelace {0,1,2,5} x two tokens {0,1,3}; queries = address {none,A,B} x ref {none, own, foreign, dangling} x min_amount {absent} or per class {absent,0,1,2,4}^3 x {single,many} x {input,collateral}, every query against every sampled store; tight: 1..50 candidates at the queried address among up to 80 others, the threshold set to the exact total of the candidates (multi-UTxO) or to the one dominating candidate (single), so that losing any candidate anywhere (narrowing, window, selection, excess trimming) turns a resolvable query into a failure; random: stores of 1..50 and 51..200 UTxOs with amounts up to 2^62, the same query shapes plus hand-built multi-ref queries (soundness only). Oracle: brute force over the store written against the statement (soundness of the bound set; completeness on the candidate set when it has <= 50 members). Non-trivial: the query has >= 2 constraints and the store has both candidate and non-candidate UTxOs; distinct = distinct (store, query).".into()
+        "small (exhaustive over a seeded sample of stores): stores of 0..4 UTxOs over addresses {A,B,C} x lovelace {0,1,2,5} x two tokens {0,1,3}; queries = address {none,A,B} x ref {none, own, foreign, dangling} x min_amount {absent} or per class {absent,0,1,2,4}^3 x {single,many} x {input,collateral}, every query against every sampled store; tight: 1..50 candidates at the queried address among up to 80 others, the threshold set to the exact total of the candidates (multi-UTxO) or to the one dominating candidate (single; magnitudes from units to 2^45, and near misses 1..10 above the best candidate, which must stay unresolved), so that losing any candidate anywhere (narrowing, window, selection, excess trimming) turns a resolvable query into a failure; random: stores of 1..50 and 51..200 UTxOs with amounts up to 2^62 (one UTxO in five also holds a policy-less Named asset: not lovelace, hence no collateral), the same query shapes plus hand-built multi-ref queries (soundness only). Oracle: brute force over the store written against the statement (soundness of the bound set; completeness on the candidate set when it has <= 50 members). Non-trivial: the query has >= 2 constraints and the store has both candidate and non-candidate UTxOs; distinct = distinct (store, query).".into()
     }
     fn assumptions(&self) -> Vec<String> {
         vec![
@@ -307,7 +313,7 @@ impl Property for C03 {
         }
     }
     fn required_features(&self, _tier: Tier) -> Vec<String> {
-        ["outcome/resolved", "outcome/not-resolved", "outcome/too-broad", "store/narrow-by-address", "store/narrow-by-asset", "store/fetch-dangling", "store/fetch-window-full", "shape/from+ref", "shape/collateral", "shape/many", "shape/multi-ref", "tight/needs-all-candidates", "tight/window-nearly-full", "tight/single-unique-cover", "tight/no-address-token-holders"]
+        ["outcome/resolved", "outcome/not-resolved", "outcome/too-broad", "store/narrow-by-address", "store/narrow-by-asset", "store/fetch-dangling", "store/fetch-window-full", "shape/from+ref", "shape/collateral", "shape/many", "shape/multi-ref", "tight/needs-all-candidates", "tight/window-nearly-full", "tight/single-unique-cover", "tight/single-near-miss", "tight/no-address-token-holders", "store/utxo-with-named-asset"]
             .iter()
             .map(|s| s.to_string())
             .collect()
@@ -419,16 +425,27 @@ impl Property for C03 {
                 let t = if with_token { Some((tot1 - if rng.bool() { 0 } else { slack }).max(1)) } else { None };
                 Query { address: if no_address { None } else { Some(a) }, refs: vec![], min: Some([Some((tot0 - slack).max(0)), t, None]), many: true, collateral: false }
             } else {
-                // exactly one candidate covers: make it dominate the others in both classes
+                // exactly one candidate covers: make it dominate the others in both classes - at magnitudes
+                // from units to 2^45 (a selector that compares compressed or rounded amounts is exact on small
+                // numbers only)
                 let pick = rng.usize(cands.len());
                 let r = cands[pick].r#ref.clone();
-                let big0 = 100 + rng.range(0, 50) as i128;
-                let big1 = if with_token { 20 } else { 0 };
+                let scale = *rng.pick(&[1i128, 1, 1_000_000, 100_000_000, 2_500_000_000, 1 << 45]);
+                let big0 = (100 + rng.range(0, 50) as i128) * scale;
+                let big1 = if with_token { 20 * scale } else { 0 };
                 let pos = store.iter().position(|u| u.r#ref == r).unwrap();
                 let n = u32::from_be_bytes(store[pos].r#ref.txid[..4].try_into().unwrap());
                 store[pos] = mk_utxo(n, a, big0, big1, 0);
-                ctx.count("tight/single-unique-cover");
-                Query { address: Some(a), refs: vec![], min: Some([Some(big0 - rng.range(0, 2) as i128), if with_token { Some(big1) } else { None }, None]), many: false, collateral: false }
+                if rng.chance(1, 2) {
+                    // near miss: the threshold lies 1..10 above what the best candidate holds - nothing covers
+                    // it, so the block must stay unresolved (a short UTxO bound to it is a soundness violation)
+                    ctx.count("tight/single-near-miss");
+                    let d = *rng.pick(&[1i128, 1, 2, 10]);
+                    Query { address: Some(a), refs: vec![], min: Some([Some(big0 + d), if with_token { Some(big1) } else { None }, None]), many: false, collateral: rng.chance(1, 4) && !with_token }
+                } else {
+                    ctx.count("tight/single-unique-cover");
+                    Query { address: Some(a), refs: vec![], min: Some([Some(big0 - rng.range(0, 2) as i128), if with_token { Some(big1) } else { None }, None]), many: false, collateral: false }
+                }
             };
             ctx.count("shape/many");
             let nt = self.check(ctx, &store, &q, true, phase);
@@ -456,7 +473,13 @@ impl Property for C03 {
                     let l = amt(rng, 5);
                     let t1 = amt(rng, 60);
                     let t2 = amt(rng, 80);
-                    mk_utxo(k as u32 + 1, 1 + rng.below(3) as u8, l, t1, t2)
+                    let u = mk_utxo(k as u32 + 1, 1 + rng.below(3) as u8, l, t1, t2);
+                    if rng.chance(1, 5) {
+                        ctx.count("store/utxo-with-named-asset");
+                        with_named(u, 1 + rng.below(5) as i128)
+                    } else {
+                        u
+                    }
                 })
                 .collect();
             let address = *rng.pick(&ADDRS);
